@@ -98,24 +98,32 @@ func sameFastq(a, b *fastq.Fastq) bool {
 }
 
 func fastqDecodeCompare(k *K, recs []*fastq.Fastq, text []byte) {
-	i := 0
+	// Records are held until the iteration is over and compared again then.
+	var held []*fastq.Fastq
 	for got, err := range fastq.Reader(bytes.NewReader(text)) {
 		if err != nil {
-			k.Failf("roundtrip", "reader error at item %d: %v", i, err)
+			k.Failf("roundtrip", "reader error at item %d: %v", len(held), err)
 			return
 		}
-		if i >= len(recs) {
+		if len(held) >= len(recs) {
 			k.Failf("roundtrip", "more than %d records decoded", len(recs))
 			return
 		}
-		if !sameFastq(got, recs[i]) {
-			k.Failf("roundtrip", "record %d decoded as %.300s, want %.300s", i, fastqKey(got), fastqKey(recs[i]))
+		if !sameFastq(got, recs[len(held)]) {
+			k.Failf("roundtrip", "record %d decoded as %.300s, want %.300s", len(held), fastqKey(got), fastqKey(recs[len(held)]))
 			return
 		}
-		i++
+		held = append(held, got)
 	}
-	if i != len(recs) {
-		k.Failf("roundtrip", "decoded %d records, want %d", i, len(recs))
+	if len(held) != len(recs) {
+		k.Failf("roundtrip", "decoded %d records, want %d", len(held), len(recs))
+		return
+	}
+	for i, got := range held {
+		if !sameFastq(got, recs[i]) {
+			k.Failf("record-not-stable", "record %d was correct when yielded but reads %.300s after the iteration went on (want %.300s)", i, fastqKey(got), fastqKey(recs[i]))
+			return
+		}
 	}
 }
 
@@ -178,6 +186,7 @@ func init() {
 			{Name: "lengths", TShards: 4, Run: c02Lengths},
 			{Name: "lists", TShards: 4, Run: c02Lists},
 			{Name: "corrupt", QShards: 2, TShards: 8, Run: c02Corrupt},
+			{Name: "sizes", TShards: 6, Run: c02Sizes},
 		},
 	})
 }
@@ -343,5 +352,36 @@ func c02Corrupt(c *Ctx) {
 				}
 			}
 		})
+	}
+}
+
+// c02Sizes sweeps read lengths densely around the points where the written
+// record crosses multiples of the usual buffer sizes; two records per case.
+func c02Sizes(c *Ctx) {
+	spans := [][2]int{{1900, 2200}}
+	if c.Thorough {
+		spans = [][2]int{{1900, 2200}, {3950, 4250}, {8000, 8300}, {32600, 32900}}
+	}
+	idx := int64(0)
+	for _, nl := range []int{0, 5, 40} {
+		for _, sp := range spans {
+			for l := sp[0]; l <= sp[1]; l++ {
+				c.Case(idx, func(k *K) {
+					r := k.Rand()
+					first := genFastqRecord(r, l)
+					first.Name = randBytesExcl(r, nl, noCRLF)
+					recs := []*fastq.Fastq{first, genFastqRecord(r, r.IntN(60))}
+					k.Input("name_len", nl)
+					k.Input("read_len", l)
+					text := fastqWrite(k, recs)
+					fastqShape(k, recs, text)
+					fastqDecodeCompare(k, recs, text)
+					k.Count("records_roundtripped", 2)
+					k.Count("size_sweep_cases", 1)
+					k.Nontrivial([]byte(fmt.Sprint(nl, l)), text[:min(64, len(text))])
+				})
+				idx++
+			}
+		}
 	}
 }
